@@ -38,6 +38,13 @@ def lists_cases():
             yield mk + [[b'lmove', b'l', b'm', s, d], [b'lrange', b'l', b'0', b'-1'], [b'lrange', b'm', b'0', b'-1']]
 
 
+    for el in (b'', b'x'):
+        yield [[b'rpush', b'l', b'a', el], [b'brpoplpush', b'l', b'm', b'0'], [b'lrange', b'm', b'0', b'-1'], [b'lrange', b'l', b'0', b'-1']]
+        yield [[b'rpush', b'l', el], [b'brpoplpush', b'l', b'l', b'1'], [b'lrange', b'l', b'0', b'-1']]
+        yield [[b'rpush', b'l', el, b'a'], [b'blpop', b'l', b'0'], [b'brpop', b'l', b'0'], [b'exists', b'l']]
+        yield [[b'rpush', b'l', el], [b'multi'], [b'brpoplpush', b'l', b'm', b'0'], [b'blpop', b'nolist', b'0'], [b'exec'], [b'lrange', b'm', b'0', b'-1']]
+
+
 def sets_cases():
     for members in ([], [b'a'], [b'a', b'b', b'c']):
         mk = [[b'sadd', b's'] + members] if members else []
